@@ -60,15 +60,22 @@ class Tr:
                 return "(.lit .none)"
             if isinstance(e.value, int):
                 return "(.lit (.int %d))" % e.value
+            if isinstance(e.value, bytes):
+                return "(.bytesLit [%s])" % ", ".join(str(b) for b in e.value)
             raise Untranslatable("constant %r" % (e.value,))
         if isinstance(e, ast.Name):
             if e.id in self.g and e.id == "USE_MSG_WAITALL":
                 return ".useWaitall"
             if e.id not in self.locals and e.id in self.g and type(self.g[e.id]) is int:
                 return "(.lit (.int %d))" % self.g[e.id]          # a module-level integer constant
+            if e.id not in self.locals and e.id in self.g and type(self.g[e.id]) is bytes:
+                return "(.bytesLit [%s])" % ", ".join(str(b) for b in self.g[e.id])     # a module-level bytes constant
             return "(.var %s)" % q(self.nm(e.id))
         if isinstance(e, ast.Attribute) and isinstance(e.value, ast.Name) and e.value.id == "self":
             return "(.var %s)" % q("self." + e.attr)
+        if isinstance(e, ast.Attribute) and e.attr == "MAX_MESSAGE_SIZE" and isinstance(e.value, ast.Name) \
+                and self.g.get(e.value.id) is __import__("Pyro5").config:
+            return ".maxSize"
         if isinstance(e, ast.Dict) and not e.keys:
             return ".emptyDict"
         if isinstance(e, ast.Call):
@@ -94,6 +101,8 @@ class Tr:
                     return ".delays"
                 if isinstance(obj, type) and issubclass(obj, BaseException):
                     return "(.mkExc %s)" % self.cls(f)
+            if isinstance(f, ast.Attribute) and f.attr == "startswith" and len(e.args) == 1 and not e.keywords and self.is_bytes(e.args[0]):
+                return "(.startsWith %s %s)" % (self.expr(f.value), self.expr(e.args[0]))
             if isinstance(f, ast.Attribute) and ast.unparse(f) == "int.from_bytes" and len(e.args) == 2 and not e.keywords \
                     and isinstance(e.args[1], ast.Constant) and e.args[1].value == "big":
                 return "(.fromBytesBig %s)" % self.expr(e.args[0])
@@ -108,10 +117,11 @@ class Tr:
             raise Untranslatable("operator in %s" % ast.unparse(e))
         if isinstance(e, ast.UnaryOp) and isinstance(e.op, ast.Not):
             return "(.not %s)" % self.expr(e.operand)
-        if isinstance(e, ast.BoolOp) and isinstance(e.op, ast.And):
+        if isinstance(e, ast.BoolOp):
+            tag = "and" if isinstance(e.op, ast.And) else "or"
             out = self.expr(e.values[0])
             for v in e.values[1:]:
-                out = "(.and %s %s)" % (out, self.expr(v))
+                out = "(.%s %s %s)" % (tag, out, self.expr(v))
             return out
         if isinstance(e, ast.Compare) and len(e.ops) == 1:
             op, a, b = e.ops[0], e.left, e.comparators[0]
@@ -122,11 +132,18 @@ class Tr:
                 return r if isinstance(op, ast.In) else "(.not %s)" % r
             if isinstance(op, ast.Is) and isinstance(b, ast.Constant) and b.value is None and self.is_sock_call(a, "gettimeout") and not a.args:
                 return ".timeoutIsNone"
-            tag = {ast.Eq: "eq", ast.NotEq: "ne", ast.Lt: "lt"}.get(type(op))
+            if isinstance(op, (ast.Is, ast.IsNot)) and isinstance(b, ast.Constant) and b.value is None:
+                r = "(.isNone %s)" % self.expr(a)
+                return r if isinstance(op, ast.Is) else "(.not %s)" % r
+            if isinstance(op, (ast.Eq, ast.NotEq)) and (self.is_bytes(a) or self.is_bytes(b)):
+                return "(.%s %s %s)" % ("eqB" if isinstance(op, ast.Eq) else "neB", self.expr(a), self.expr(b))
+            tag = {ast.Eq: "eq", ast.NotEq: "ne", ast.Lt: "lt", ast.LtE: "le"}.get(type(op))
             if tag:
                 return "(.%s %s %s)" % (tag, self.expr(a), self.expr(b))
             if isinstance(op, ast.Gt):
                 return "(.lt %s %s)" % (self.expr(b), self.expr(a))
+            if isinstance(op, ast.GtE):
+                return "(.le %s %s)" % (self.expr(b), self.expr(a))
             raise Untranslatable("comparison %s" % ast.unparse(e))
         if isinstance(e, ast.Subscript) and isinstance(e.slice, ast.Slice) and e.slice.upper is None and e.slice.step is None \
                 and e.slice.lower is not None:
@@ -147,6 +164,16 @@ class Tr:
         return out or ".skip"
 
     def stmt(self, s):
+        if not getattr(self, "lenient", False):
+            return self.stmt1(s)
+        try:
+            return self.stmt1(s)
+        except Untranslatable:
+            if isinstance(s, (ast.If, ast.While, ast.For, ast.Try, ast.With)):
+                raise                                  # only leaf statements may be left opaque
+            return "(.unsupported %s)" % q(ast.unparse(s)[:80])
+
+    def stmt1(self, s):
         if isinstance(s, ast.Expr):
             v = s.value
             if isinstance(v, ast.Constant) and isinstance(v.value, str):
@@ -172,6 +199,25 @@ class Tr:
                         and isinstance(v.args[0].args[0], ast.Name):
                     return ".sleep"
             raise Untranslatable("statement %s" % ast.unparse(s))
+        if isinstance(s, ast.Assign) and len(s.targets) == 1 and isinstance(s.targets[0], ast.Tuple) and isinstance(s.value, ast.Call) \
+                and ast.unparse(s.value.func) == "struct.unpack" and len(s.value.args) == 2 and self.g.get("struct") is __import__("struct"):
+            fmt = self.resolve(s.value.args[0])
+            if not (isinstance(fmt, str) and fmt.startswith("!")):
+                raise Untranslatable("struct format %r" % (fmt,))
+            import re as _re
+            flds = []
+            for cnt, ch in _re.findall(r"(\d*)([a-zA-Z])", fmt[1:]):
+                if ch == "s":
+                    flds.append("(.raw %d)" % int(cnt or 1))
+                elif ch in "BHI" and not cnt:
+                    flds.append("(.uint %d)" % {"B": 1, "H": 2, "I": 4}[ch])
+                else:
+                    raise Untranslatable("struct field %s%s" % (cnt, ch))
+            import struct as _struct
+            if _struct.calcsize(fmt) != sum(int(x.split()[1].rstrip(")")) for x in flds):
+                raise Untranslatable("struct format size")
+            tg = [("_" if (isinstance(t, ast.Name) and t.id == "_") else self.target(t)) for t in s.targets[0].elts]
+            return "(.unpackInto [%s] [%s] %s)" % (", ".join(q(t) for t in tg), ", ".join(flds), self.expr(s.value.args[1]))
         if isinstance(s, ast.Assert) and s.msg is None:
             return "(.assert_ %s)" % self.expr(s.test)
         if isinstance(s, ast.AugAssign) and isinstance(s.op, ast.BitAnd) and isinstance(s.value, ast.UnaryOp) \
@@ -252,6 +298,10 @@ class Tr:
             return ".skip"
         raise Untranslatable("statement %s" % ast.unparse(s).splitlines()[0])
 
+    def is_bytes(self, e):
+        return (isinstance(e, ast.Constant) and isinstance(e.value, bytes)) or \
+            (isinstance(e, ast.Name) and e.id not in self.locals and type(self.g.get(e.id)) is bytes)
+
     def nm(self, name):
         return getattr(self, "rename", {}).get(name, name)
 
@@ -262,7 +312,10 @@ class Tr:
             return "self." + t.attr
         raise Untranslatable("assignment target %s" % ast.unparse(t))
 
-    def function(self, name, params, owner=None):
+    def function(self, name, params, owner=None, lenient=False):
+        """lenient: a leaf statement outside the fragment becomes `.unsupported` (running it is `stuck`) instead of
+        refusing the whole function - for code that the theorem's hypotheses make unreachable"""
+        self.lenient = lenient
         fn = getattr(owner or self.m, name)
         tree = ast.parse(textwrap.dedent(inspect.getsource(fn)))
         fd = tree.body[0]
@@ -281,7 +334,8 @@ class Tr:
             if name not in self.rename:
                 self.rename[name] = "v%d" % sum(1 for v in self.rename.values() if v.startswith("v"))
         got = [a.arg for a in fd.args.args]
-        if got != params or fd.args.vararg or fd.args.kwarg or fd.args.kwonlyargs or fd.decorator_list:
+        if got != params or fd.args.vararg or fd.args.kwarg or fd.args.kwonlyargs or \
+                any(ast.unparse(d) not in ("staticmethod",) for d in fd.decorator_list):
             raise Untranslatable("%s%r: signature changed (expected %r)" % (name, got, params))
         return self.block(fd.body)
 
